@@ -113,6 +113,7 @@ func runC07(c *report.Ctx) {
 	ruleChainFetcherHasNoMemory(c)
 	ruleParkedHandlerOnlyWaits(c)
 	ruleFilterSiblingsAgreeOnFlags(c)
+	ruleRelatedTxAskedOnce(c)
 	ruleStakingUseMarksStandardForm(c)
 
 	c.Rule("select-gate", "UseWallet selects a keystore only after CheckReady succeeded and reported ready", 1)
